@@ -138,7 +138,23 @@ func (e Error) GoString() string {
 	return e.formatWithStack()
 }
 
+// describe formats the message of an error the interpreter raises. An object among the arguments is named
+// by its class: formatting it through fmt would run its script-defined toString (an effect the script can
+// see, at a point where ES5 performs no conversion) and fmt recovers whatever that panics with.
 func (e ottoError) describe(format string, in ...interface{}) string {
+	for index, argument := range in {
+		if value, ok := argument.(Value); ok && value.kind == valueObject {
+			obj := value.object()
+			switch fn := obj.value.(type) {
+			case nativeFunctionObject:
+				in[index] = fmt.Sprintf("function %s() { [native code] }", fn.name)
+			case nodeFunctionObject:
+				in[index] = fn.node.source
+			default:
+				in[index] = "[object " + obj.class + "]"
+			}
+		}
+	}
 	return fmt.Sprintf(format, in...)
 }
 
